@@ -45,6 +45,7 @@ func runReattachCase(c raCase, bin, tmp string) []map[string]interface{} {
 	closeCh := make(chan struct{})
 	clients := map[string]*plugin.Client{}
 	stubs := map[string]*vp.Stub{}
+	failed := map[string]*plugin.Client{} // clients whose reattach found nothing
 	instance := ""
 	alive := func() bool {
 		if c.TestMode {
@@ -128,6 +129,7 @@ func runReattachCase(c raCase, bin, tmp string) []map[string]interface{} {
 			if err != nil {
 				if errors.Is(err, plugin.ErrProcessNotFound) {
 					res = "notfound"
+					failed[op.C] = cl
 				} else {
 					res = "err:" + err.Error()
 				}
@@ -168,6 +170,20 @@ func runReattachCase(c raCase, bin, tmp string) []map[string]interface{} {
 			clients[op.C].Kill()
 			res = "done"
 			time.Sleep(150 * time.Millisecond)
+		case "Again":
+			// the same client value whose reattach found nothing is asked again
+			cl := failed[op.C]
+			if cl == nil {
+				res = "err:no failed client"
+				break
+			}
+			if _, err := cl.Start(); err == nil {
+				res = "ok"
+			} else if errors.Is(err, plugin.ErrProcessNotFound) {
+				res = "notfound"
+			} else {
+				res = "err:" + err.Error()
+			}
 		case "Crash":
 			// the plugin dies without any shutdown; its socket file stays behind
 			if pid != 0 {
